@@ -41,4 +41,5 @@ run C32 && mut C32 protocol/chainlib/extensionslib/archive_parser_rule.go 'if la
 run C34 && mut C34 protocol/relaypolicy/policy.go 'input.AttemptNumber >= p.config.MaxRetries' 'input.AttemptNumber > p.config.MaxRetries'
 run C36 && mut C36 protocol/chainlib/chain_fetcher.go '	relayData.SeenBlock = 0                         // remove seen block
 ' ''
+run C29 && mut C29 protocol/rpcprovider/rewardserver/reward_server.go 'if cuSumStored >= proof.CuSum {' 'if cuSumStored <= proof.CuSum {'
 exit 0
